@@ -26,9 +26,9 @@ theorem matchToks_literal_iff (ic : Bool) (p : List Char) : ∀ n : List Char,
     | nil => simp [matchToks]
     | cons y ys => simp [matchToks, ih]
 
-theorem eqChars_iff_norm (ic : Bool) (p : List Char) : ∀ n : List Char,
-    EqChars ic p n ↔ norm ic n = norm ic p := by
-  unfold EqChars norm eqChar
+theorem eqChars_iff_normRe (ic : Bool) (p : List Char) : ∀ n : List Char,
+    EqChars ic p n ↔ normRe ic n = normRe ic p := by
+  unfold EqChars normRe eqChar
   cases ic with
   | true =>
     simp only [if_true]
@@ -89,9 +89,14 @@ theorem matchPure_literal_iff (ic : Bool) (name pat : String) (hw : isWildcard p
   rw [translate_literal _ hw]
   exact matchToks_literal_iff ic _ _
 
-theorem matchPure_eq_cmp (ic : Bool) (name pat : String) (hw : isWildcard pat = false) :
+/-- on a wildcard-free pattern `__match` and `__cmp` are the same test, provided `str.upper()` and
+`re.IGNORECASE` agree on the characters of the name and of the pattern (`P`) -/
+theorem matchPure_eq_cmp (ic : Bool) (name pat : String) (hw : isWildcard pat = false)
+    {P : Char → Prop} (hP : ic = true → CaseFold.CaseRegular P)
+    (hn : ∀ x ∈ name.toList, P x) (hp : ∀ x ∈ pat.toList, P x) :
     matchPure ic name pat = cmp ic name pat := by
-  rw [Bool.eq_iff_iff, matchPure_literal_iff ic name pat hw, eqChars_iff_norm, cmp_iff_norm]
+  rw [Bool.eq_iff_iff, matchPure_literal_iff ic name pat hw, eqChars_iff_normRe,
+    normRe_eq_iff_norm ic hP _ _ hn hp, cmp_iff_norm]
 
 /-! ## `findP` on a literal component that selects no / exactly one child -/
 
@@ -167,12 +172,15 @@ def lift (r : Except RErr Addr) : Except RErr (List Addr) :=
 theorem isWildcard_starstar : isWildcard "**" = true := by decide
 
 theorem globP_literal (c : Ctx α) (hr : c.relax = false) (hsu : SiblingUnique c)
-    (parts : List String) (hp : ∀ p ∈ parts, isWildcard p = false) :
+    {P : Char → Prop} (hca : CaseAgree c P)
+    (parts : List String) (hp : ∀ p ∈ parts, isWildcard p = false)
+    (hpP : ∀ p ∈ parts, ∀ x ∈ p.toList, P x) :
     ∀ a, globP false c parts a = lift (walkPath c parts a) := by
   induction parts with
   | nil => intro a; rfl
   | cons name rem ih =>
     have ih := ih (fun p h => hp p (List.mem_cons_of_mem _ h))
+      (fun p h => hpP p (List.mem_cons_of_mem _ h))
     have hw : isWildcard name = false := hp name (List.mem_cons_self ..)
     intro a
     rw [globP, walkPath, stepS]
@@ -192,7 +200,8 @@ theorem globP_literal (c : Ctx α) (hr : c.relax = false) (hsu : SiblingUnique c
         simp only [h3, Bool.false_eq_true, ↓reduceIte]
         have hhit : (fun ch => matchPure c.ignorecase (c.name ch) name) =
             (fun ch => cmp c.ignorecase (c.name ch) name) :=
-          funext fun ch => matchPure_eq_cmp _ _ _ hw
+          funext fun ch => matchPure_eq_cmp _ _ _ hw hca
+            (fun x hx => Or.inr ⟨ch, hx⟩) (fun x hx => Or.inl (hpP name (List.mem_cons_self ..) x hx))
         rw [hhit, hw]
         cases hf : (c.children a).find? (fun ch => cmp c.ignorecase (c.name ch) name) with
         | none =>
@@ -295,31 +304,37 @@ theorem split_wildcard_free (sep path : String) (hw : isWildcard path = false) :
 /-! ## whole paths -/
 
 theorem globTopP_literal (c : Ctx α) (hr : c.relax = false) (hsu : SiblingUnique c) (a : Addr)
-    (path : String) (hp : ∀ p ∈ split c.sep path, isWildcard p = false) :
+    (path : String) (hca : CaseAgree c (· ∈ path.toList))
+    (hp : ∀ p ∈ split c.sep path, isWildcard p = false) :
     globTopP false c a path = lift (getStrictS c a path) := by
+  have hch : ∀ p ∈ split c.sep path, ∀ x ∈ p.toList, x ∈ path.toList :=
+    fun p hpm x hx => split_chars c.sep path p hpm x hx
   unfold globTopP getStrictS
   simp only
   by_cases h1 : startsWith path c.sep = true
   · simp only [h1, if_true]
     rcases hd : (split c.sep path).drop 1 with _ | ⟨p0, rest⟩
     · rfl
-    · have hsub : ∀ p ∈ p0 :: rest, isWildcard p = false := by
+    · have hmem : ∀ p ∈ p0 :: rest, p ∈ split c.sep path := by
         intro p hpm
-        apply hp p
         have : p ∈ (split c.sep path).drop 1 := by rw [hd]; exact hpm
         exact List.mem_of_mem_drop this
+      have hsub : ∀ p ∈ p0 :: rest, isWildcard p = false := fun p hpm => hp p (hmem p hpm)
       simp only
       by_cases h2 : (p0 == "") = true
       · simp [h2, hr, lift]
       · simp only [h2, Bool.false_eq_true, ↓reduceIte]
-        rw [matchPure_eq_cmp _ _ _ (hsub p0 (List.mem_cons_self ..))]
+        rw [matchPure_eq_cmp _ _ _ (hsub p0 (List.mem_cons_self ..)) hca
+          (fun x hx => Or.inr ⟨[], hx⟩)
+          (fun x hx => Or.inl (hch p0 (hmem p0 (List.mem_cons_self ..)) x hx))]
         cases cmp c.ignorecase (c.name []) p0 with
         | false => simp [hr, lift]
         | true =>
           simp only [Bool.not_true, Bool.false_eq_true, if_false]
-          exact globP_literal c hr hsu rest (fun p h => hsub p (List.mem_cons_of_mem _ h)) []
+          exact globP_literal c hr hsu hca rest (fun p h => hsub p (List.mem_cons_of_mem _ h))
+            (fun p h => hch p (hmem p (List.mem_cons_of_mem _ h))) []
   · simp only [h1, Bool.false_eq_true, ↓reduceIte]
-    exact globP_literal c hr hsu _ hp a
+    exact globP_literal c hr hsu hca _ hp hch a
 
 /-- strict `get` is the strict specification — also for `sep = ""` (both sides then report the
 missing root component) -/
